@@ -4,6 +4,7 @@ import Driver.StateDB
 import Driver.Block
 import Driver.Ante
 import Driver.VAuth
+import Driver.Erc20
 
 def main (args : List String) : IO UInt32 := do
   let stdin ← IO.getStdin
@@ -14,4 +15,5 @@ def main (args : List String) : IO UInt32 := do
   | ["statedb"] => Driver.loop stdin stdout Driver.StateDB.step Driver.StateDB.init; return 0
   | ["ante"] => Driver.loop stdin stdout Driver.Ante.step (); return 0
   | ["vauth"] => Driver.loop stdin stdout Driver.VAuth.step Driver.VAuth.init; return 0
+  | ["erc20"] => Driver.loop stdin stdout Driver.Erc20.step Driver.Erc20.init; return 0
   | _ => IO.eprintln "usage: driver <engine>"; return 2
